@@ -371,7 +371,14 @@ fn concurrent_checks(rng: &mut Rng, rounds: u64, st: &mut Stats, noperturb: bool
          let ri: CRelIndex<K, V> = Default::default();
          let li: CLatIndex<K, V> = Default::default();
          let fi: CRelFullIndex<K, V> = Default::default();
-         let ni: CRelNoIndex<u32> = pool.install(Default::default);
+         // the index may be created in another context than the pool that fills it (generated code creates indices wherever the
+         // program object is constructed): the filling pool, the global pool, or a smaller pool
+         let ni: CRelNoIndex<u32> = match round % 4 {
+            0 => pool.install(Default::default),
+            1 => Default::default(),
+            2 => rayon::ThreadPoolBuilder::new().num_threads(1).build().unwrap().install(Default::default),
+            _ => rayon::ThreadPoolBuilder::new().num_threads(2).build().unwrap().install(Default::default),
+         };
          let winners: Vec<Vec<u8>> = pool.install(|| {
             (0..threads)
                .into_par_iter()
